@@ -340,7 +340,11 @@ func dischargeAll(obls []*Obligation, timeout time.Duration, workers int, solver
 		go func() {
 			defer wg.Done()
 			for o := range ch {
-				discharge(o, timeout, solvers, nil)
+				t := timeout
+				if o.ShortTimeout && t > 3*time.Second {
+					t = 3 * time.Second // obligations a listed known finding says fail: no need to wait for the full timeout
+				}
+				discharge(o, t, solvers, nil)
 			}
 		}()
 	}
